@@ -13,6 +13,10 @@ Alphabet.  Valid datagrams (deviation 0; offered only where the statement's prec
   ("vo"|"vr", i, j)     viewer_i -> sim_j ordinary (flags 0) / reliable with two piggy-backed acks      [circuit (i,j) open]
   ("so"|"sr", i, j)     sim_j -> viewer_i ordinary / reliable with acks                                   [circuit (i,j) open]
                         (simulator packet ids start at 0x100 / 0x300: flags 0 + such an id reads as a SOCKS5 UDP header)
+  ("vx"|"sx", i, j, mode)  RELIABLE|RESENT datagram viewer->sim / sim->viewer [deviation; valid, must be relayed once]: mode same =
+                        the id that endpoint used last (retransmission), other = the id the peer used last (ids of the two
+                        directions are independent and coincide), new = unseen id; BFS menu: vx same, sx same, sx other;
+                        all modes in ``resend_scenarios``
   ("vc", i, j)          CloseCircuit viewer_i -> sim_j; ("sd", i, j) DisableSimulator sim_j -> viewer_i   [circuit alive]
                         both must be forwarded once and kill the circuit; afterwards ("U", i, j) is the re-opening
                         UseCircuitCode (forwarded once, live circuit again); no traffic is offered on a dead circuit
@@ -128,7 +132,7 @@ def _template_msg(name: str, pid: int, flags: int = 0) -> bytes:
 
 
 def _is_deviation(ev) -> bool:
-    return ev[0].startswith("g_") or ev[0] in ("e_oserr", "so_big")
+    return ev[0].startswith("g_") or ev[0] in ("e_oserr", "so_big", "vx", "sx")
 
 
 def liveness(st):
@@ -209,6 +213,7 @@ class Harness:
                 evs.append(("U", i, j))
                 if m.alive(i, j):
                     evs += [("vo", i, j), ("vr", i, j), ("so", i, j), ("sr", i, j), ("vc", i, j), ("sd", i, j)]
+                    evs += [("vx", i, j, "same"), ("sx", i, j, "same"), ("sx", i, j, "other")]
         return evs
 
     def garbage_events(self, m: Model):
@@ -307,6 +312,23 @@ class Harness:
             flags, acks = (0, ()) if k == "so" else (0x50, (m.last(i, j, OUT), 7))
             sim(_chat_in(i, m.take(i, j, IN), flags, acks), U.SIMS[j])
             d.update(cls="valid", dir=IN, j=j, site="in:" + ("ordinary" if k == "so" else "reliable+acks"))
+        elif k in ("vx", "sx"):
+            # RELIABLE|RESENT datagram.  mode "same": the packet id this endpoint used last (a genuine retransmission;
+            # a fresh id if it has sent nothing yet = first sight already flagged RESENT); "other": the id the *peer* used
+            # last (the original was lost before the proxy; both ends number independently, so ids coincide); "new": unseen id.
+            j, mode = ev[2], ev[3]
+            own, peer = (OUT, IN) if k == "vx" else (IN, OUT)
+            if mode == "new" or (mode == "same" and m.last(i, j, own) < m.first_pid(j, own)):
+                pid = m.take(i, j, own)
+            elif mode == "same":
+                pid = m.last(i, j, own)
+            else:
+                pid = max(m.last(i, j, peer), 1)
+            if k == "vx":
+                viewer(_chat_out(i, pid, 0x60), U.SIMS[j])
+            else:
+                sim(_chat_in(i, pid, 0x60), U.SIMS[j])
+            d.update(cls="valid", dir=own, j=j, site=f"{own}:resent-{mode}-id")
         elif k == "so_big":
             j = ev[2]
             sim(big_layer_data(m.take(i, j, IN)), U.SIMS[j])
@@ -692,6 +714,8 @@ def _is_enabled(h, w, ev) -> bool:
         return True
     if ev[0] == "so_big":
         return w.model.alive(ev[1], ev[2])
+    if ev[0] in ("vx", "sx"):
+        return w.model.alive(ev[1], ev[2])
     if ev[0] == "g_banned_in" and len(ev) == 4:
         return ev[:3] in h.enabled(w)
     return ev in h.enabled(w)
@@ -717,6 +741,23 @@ def _interleave_worker(item):
     for v in viols:
         part.violation(v["clause"], v["site"], {"kind": "interleave", "base": base, "history": [list(e) for e in hist], "seed": _SEED}, v["detail"])
     return part.dump()
+
+
+def resend_scenarios():
+    """Retransmissions (RELIABLE|RESENT) on every circuit of the four-circuit base: every retry of an already forwarded
+    packet, a retry whose id the peer has used for its own reliable packet (UseCircuitCode is reliable packet 1 of the
+    viewer; simulators are made to reuse small ids through mode "other"), first sight already flagged RESENT; each must
+    be relayed exactly once, followed by ordinary traffic both ways."""
+    for i in (0, 1):
+        for j in (0, 1):
+            c = (i, j)
+            yield ("all-open", (("vr", *c), ("vx", *c, "same"), ("vx", *c, "same"), ("vx", *c, "same"), ("so", *c), ("vo", *c)))
+            yield ("all-open", (("sr", *c), ("sx", *c, "same"), ("sx", *c, "same"), ("sx", *c, "same"), ("vo", *c), ("so", *c)))
+            yield ("all-open", (("sx", *c, "other"), ("sx", *c, "other"), ("vr", *c), ("sx", *c, "other"), ("so", *c)))
+            yield ("all-open", (("sr", *c), ("vx", *c, "other"), ("vx", *c, "other"), ("vo", *c), ("so", *c)))
+            yield ("all-open", (("vx", *c, "new"), ("sx", *c, "new"), ("vx", *c, "same"), ("sx", *c, "same")))
+            yield ("all-open", (("sx", *c, "same"), ("vx", *c, "same"), ("vr", *c), ("sr", *c), ("vx", *c, "other"), ("sx", *c, "other")))
+    yield ("one-open", (("sx", 0, 0, "other"), ("vx", 0, 0, "same"), ("so", 0, 0), ("vo", 0, 0)))
 
 
 def reopen_scenarios():
@@ -839,6 +880,7 @@ def run(run: Run):
     if quick:
         items = [it for it in items if len(it[1]) == 2 or it[0] == "one-open"]
     items += list(reopen_scenarios())
+    items += list(resend_scenarios())
     items += list(repeated_garbage("one-open")) + list(repeated_garbage("all-open"))
     n_il = len(items)
     items += list(flood_scenarios(quick))
